@@ -1602,7 +1602,7 @@ impl Th {
         while !self.weaks.is_empty() {
             self.drop_weak(0);
         }
-        {
+        if flush {
             let g = cs();
             g.flush();
         }
